@@ -1055,3 +1055,73 @@ package tally
 //@   ensures @well_formed scopeWF(result)
 //@   ensures @reporting_goroutine_tracked interval > 0 ==> (exists p int :: old(len(calls)) <= p && p + 1 < len(calls) && calls[p] == evn("wg.Add:.wg", result) && calls[p+1] == evn("go:github.com/uber-go/tally/v4.newRootScope$1"))
 //@   requires opts.DefaultBuckets == nil || is(opts.DefaultBuckets, ValueBuckets) || is(opts.DefaultBuckets, DurationBuckets)
+
+// ---------------------------------------------------------------------------
+// C06: the sanitize closure. Strings are viewed as sequences of decoded runes
+// (what `range` over a string yields: invalid bytes decode to U+FFFD, one byte
+// wide). The UTF-8 facts used are the axioms below (assumed; they describe
+// unicode/utf8, not tally).
+
+//@ pure func validUTF8(s string) bool
+//@ pred validRune(r rune) { (0 <= r && r < 55296) || (57344 <= r && r <= 1114111) }
+//@ pred normRune(r rune) { validRune(r) ? r : 65533 }
+
+//@ axiom utf8_decoded_runes_are_valid: forall v string, j int :: 0 <= j && j < runeCount(v) ==> validRune(runeAt(v, j))
+//@ axiom utf8_prefix_at_rune_boundary: forall v string, j int :: 0 <= j && j <= runeCount(v) ==> runeCount(sub(v, 0, runeOff(v, j))) == j && (forall t int :: 0 <= t && t < j ==> runeAt(sub(v, 0, runeOff(v, j)), t) == runeAt(v, t))
+//@ axiom utf8_append_encoded_rune: forall a string, r rune :: runeCount(a + runestr(r)) == runeCount(a) + 1 && runeAt(a + runestr(r), runeCount(a)) == normRune(r) && (forall t int :: 0 <= t && t < runeCount(a) ==> runeAt(a + runestr(r), t) == runeAt(a, t))
+//@ axiom utf8_rune_count_bounds: forall v string :: 0 <= runeCount(v) && runeCount(v) <= len(v)
+//@ axiom utf8_offsets_increase: forall v string, j int :: 0 <= j && j <= runeCount(v) ==> j <= runeOff(v, j) && runeOff(v, j) <= len(v) && (j == 0 ==> runeOff(v, j) == 0)
+//@ axiom utf8_empty: runeCount("") == 0 && validUTF8("")
+//@ axiom utf8_valid_append: forall a string, r rune :: validUTF8(a) ==> validUTF8(a + runestr(r))
+//@ axiom utf8_valid_prefix: forall v string, j int :: 0 <= j && j <= runeCount(v) && (forall t int :: 0 <= t && t < j ==> runeAt(v, t) != 65533) ==> validUTF8(sub(v, 0, runeOff(v, j)))
+//@ axiom utf8_no_replacement_runes_means_valid: forall v string :: (forall t int :: 0 <= t && t < runeCount(v) ==> runeAt(v, t) != 65533) ==> validUTF8(v)
+
+//@ pred inRange(c *ValidCharacters, i int, ch rune) { c.Ranges[i][0] <= ch && ch <= c.Ranges[i][1] }
+//@ pred allowed(c *ValidCharacters, ch rune) { (exists i int :: 0 <= i && i < len(c.Ranges) && inRange(c, i, ch)) || (exists i int :: 0 <= i && i < len(c.Characters) && c.Characters[i] == ch) }
+//@ pred sanRune(c *ValidCharacters, rep rune, ch rune) { allowed(c, ch) ? ch : normRune(rep) }
+
+//@ func getSanitizeBuffer
+//@   property C06
+//@   trusted
+//@   allocs
+//@   ensures @exclusive_empty_buffer result != nil && fresh(result) && deref(result) == ""
+
+//@ func putSanitizeBuffer
+//@   property C06
+//@   emits
+//@   requires b != nil
+//@   modifies b
+//@   ensures @reset_before_pooling deref(b) == "" && len(calls) == old(len(calls)) + 1
+
+//@ func (*ValidCharacters).sanitizeFn$1
+//@   property C06
+//@   emits
+//@   allocs
+//@   requires c != nil
+//@   ensures @same_number_of_runes runeCount(result) == runeCount(value)
+//@   ensures @every_rune_allowed_or_replacement forall t int :: 0 <= t && t < runeCount(value) ==> runeAt(result, t) == sanRune(c, repChar, runeAt(value, t))
+//@   ensures @valid_input_unchanged (forall t int :: 0 <= t && t < runeCount(value) ==> allowed(c, runeAt(value, t))) ==> result == value
+//@   ensures @config_untouched forall i int :: 0 <= i && i < len(c.Ranges) ==> c.Ranges[i][0] == old(c.Ranges[i][0]) && c.Ranges[i][1] == old(c.Ranges[i][1])
+//@   case replacement_rune_not_allowed: requires !allowed(c, 65533)
+//@     ensures @no_raw_invalid_bytes validUTF8(result)
+//@   case replacement_rune_allowed: requires allowed(c, 65533)
+//@     ensures @no_raw_invalid_bytes validUTF8(result)
+//@   loop 1 invariant @progress 0 <= runesDone(1) && runesDone(1) <= runeCount(value)
+//@   loop 1 invariant @untouched_so_far buf == nil ==> (forall t int :: 0 <= t && t < runesDone(1) ==> allowed(c, runeAt(value, t)))
+//@   loop 1 invariant @copy_so_far buf != nil ==> fresh(buf) && runeCount(deref(buf)) == runesDone(1) && (forall t int :: 0 <= t && t < runesDone(1) ==> runeAt(deref(buf), t) == sanRune(c, repChar, runeAt(value, t)))
+//@   loop 1 invariant @copy_is_valid_utf8 buf != nil && !allowed(c, 65533) ==> validUTF8(deref(buf))
+//@   loop 1 invariant @quiet quiet()
+//@   loop 2 invariant @idx 0 <= i && i <= len(c.Ranges)
+//@   loop 2 invariant @found validCurr ==> allowed(c, ch)
+//@   loop 2 invariant @not_found_yet !validCurr ==> (forall k int :: 0 <= k && k < i ==> !inRange(c, k, ch))
+//@   loop 3 invariant @idx 0 <= i#2 && i#2 <= len(c.Characters)
+//@   loop 3 invariant @found validCurr ==> allowed(c, ch)
+//@   loop 3 invariant @not_in_any_range !validCurr ==> (forall k int :: 0 <= k && k < len(c.Ranges) ==> !inRange(c, k, ch))
+//@   loop 3 invariant @not_found_yet !validCurr ==> (forall k int :: 0 <= k && k < i#2 ==> c.Characters[k] != ch)
+
+//@ lemma sanitized_rune_is_a_fixpoint [C06]: forall c *ValidCharacters, rep rune, ch rune :: sanRune(c, rep, sanRune(c, rep, ch)) == sanRune(c, rep, ch)
+
+//@ func NoOpSanitizeFn
+//@   property C06
+//@   ensures @identity result == v
+//@   ensures @quiet quiet()
